@@ -7,7 +7,7 @@ Plain Amaranth modules (no Transactron manager): the cycle driver owns `requests
   the current request vector; no request -> `valid` low (the *effective* grant `grant & valid` is
   empty; the raw `grant` output keeps the register value, which every user gates with `valid`).
 * RoundRobin (registered grant): `valid` -> `grant` < count and designates a requester of the previous
-  cycle's request vector.
+  or of the current cycle's request vector (the statement does not say which cycle "active" refers to).
 * both: an input that requests continuously is served within `count` cycles, i.e. it never collects
   `count` consecutive requesting cycles whose arbitration decision went to somebody else.  (Derived
   from the code: after a grant the granted input has the lowest priority, all others are served in
@@ -150,10 +150,13 @@ class Scen(CompScenario):
         else:
             # the decision taken on (state, prev_req) in the previous cycle is visible now
             if valid:
-                self.expect(self.prev_req != 0, "valid-without-previous-request",
-                            f"valid=1 grant={grant} but nobody requested in the previous cycle", cls="rr")
-                self.expect(grant < n and (self.prev_req >> grant) & 1, "grant-not-a-requester",
-                            f"valid=1 grant={grant} previous requests={self.prev_req:#b}", cls="rr")
+                active = self.prev_req | req  # "an active requester": of the deciding or of the current cycle
+                self.expect(active != 0, "valid-without-previous-request",
+                            f"valid=1 grant={grant} but nobody requested in the previous or in this cycle", cls="rr")
+                self.expect(grant < n and (active >> grant) & 1, "grant-not-a-requester",
+                            f"valid=1 grant={grant} previous requests={self.prev_req:#b} current requests={req:#b}", cls="rr")
+                if not (self.prev_req >> grant) & 1:
+                    self.hit("rr_grant_designates_requester_of_current_cycle_only")
                 served = grant
                 if not (req >> grant) & 1:
                     self.hit("dropout_at_grant")
@@ -237,7 +240,8 @@ class Prop(PropBase):
     state_measure = "(arbiter state = last granted index, request vector) pairs, per class and count"
     assumptions = ["'grants none' for OneHotRoundRobin without requests is read as valid low (grant & valid empty): "
                    "the raw grant output keeps the last one-hot value, every user in the library gates it with valid",
-                   "RoundRobin is registered: 'active requester' refers to the previous cycle's request vector"]
+                   "RoundRobin is registered: an 'active requester' is an input requesting in the previous cycle (on which the "
+                   "visible decision was taken) or in the current one; fairness is counted on the deciding cycle's requests"]
 
     def gen_config(self, rng, tier, idx):
         big = tier == "thorough"
